@@ -1175,5 +1175,39 @@ pub fn gen_c18(thorough: bool, seed: u64) -> Vec<Episode> {
             push(&mut eps, 2, vec![onset(2, f); 3], kinds[(f % 3) as usize], triples[(f as usize) % triples.len()]);
         }
     }
+    // one output is exactly a cube; the minterms of that cube are each needed, alone, by another output (which
+    // makes the OR of the sub-cubes cheaper than the cube when AND gates cost more than OR gates)
+    {
+        let mut k = 0usize;
+        for n in [3usize, 4] {
+            for (p, q) in all_cubes(n) {
+                let free: Vec<usize> = (0..n).filter(|v| (p | q) >> v & 1 == 0).collect();
+                if free.len() != 1 && !(free.len() == 2 && thorough) {
+                    continue;
+                }
+                k += 1;
+                if !thorough && n == 4 && k % 3 != 0 {
+                    continue;
+                }
+                let members: Vec<usize> = (0..dom(n)).filter(|m| m & p == p && m & q == 0).collect();
+                let mut fs: Vec<Vec<usize>> = vec![members.clone()];
+                for (t, &m) in members.iter().enumerate().take(2) {
+                    // the minterm itself plus a far-away one (the complement assignment, shifted per output)
+                    let far = (!m & (dom(n) - 1)) ^ (t << (n - 1)) & (dom(n) - 1);
+                    let mut o = vec![m];
+                    if far != m && !members.contains(&far) {
+                        o.push(far);
+                    }
+                    o.sort();
+                    fs.push(o);
+                }
+                let t = [(3, 1, 1), (2, 1, 1), (3, 2, 2), (3, 3, 1)][k % 4];
+                push(&mut eps, n, fs.clone(), "sop", t);
+                if k % 2 == 0 {
+                    push(&mut eps, n, fs, "sopes", t);
+                }
+            }
+        }
+    }
     eps
 }
